@@ -113,6 +113,14 @@ class WidgetProtocol(Protocol):
     has = {"automove_cursor_on_scroll": False, "set_scrollpos": "uf", "get_scrollpos": "uf", "get_cursor_coords": "uf", "get_pref_col": "uf", "move_cursor_to_coords": "uf", "mouse_event": "uf", "keypress": True, "rows": True, "pack": True, "render": True, "selectable": True}
 
 
+    def isinstance(self, ip, st, obj, cls):
+        """An opaque child of kind Widget *is* a urwid.Widget (the container proofs are "for every child honouring the
+        widget protocol"; for a non-Widget object the constructors only emit a DeprecationWarning)."""
+        if cls is urwid.Widget:
+            return True
+        raise Unsupported(f"isinstance of an opaque Widget against {cls!r}")
+
+
 PROTOCOLS["Widget"] = WidgetProtocol()
 
 
@@ -446,4 +454,11 @@ class w_invalidate:
 @contract("urwid/canvas.py:CompositeCanvas.set_depends", property=(), assumed=True, notes="canvas protocol: cache dependencies only (C06)")
 class cc_set_depends:
     self_shape = CCANVAS
+    modifies = ()
+
+
+@contract("urwid/widget/widget.py:Widget.__init__", property=(), assumed=True,
+          notes="stores `self.logger = logging.getLogger(<class path>)` and nothing else; logger calls are dropped (DESIGN 2.1) and the attribute is never read by verified code")
+class widget_init:
+    self_shape = Obj(urwid.Widget, {})
     modifies = ()
